@@ -415,6 +415,12 @@ def r06_4_5(ctx: Ctx) -> None:
                "that 'cannot reach further' compares ends that are not comparable for origin-spanning sections)",
                detail=f"extension only under {extra}" if extra else "", form=txt(merges[0])[:100])
         ok = True
+    from .c04 import _wrap_iff
+    wrap_ok, wrap_forms = _wrap_iff(func, "self.is_circular()", None)
+    ctx.ob("R06.5", REC, merges[0] if merges else loop, qual, "wrap point iff circular", wrap_ok,
+           "sections are connected with the record length as wrap point exactly when the record is circular: whether any "
+           "particular area crosses the origin says nothing about the areas the sweep meets later (a whole-record area sorts "
+           "before the crossing ones)", form=str(wrap_forms)[:200])
     ctx.ob("R06.5", REC, merges[0] if merges else loop, qual, "section growth", ok,
            "an overlapping area extends the running section to the span covering both (with the wrap point)",
            form=txt(merges[0]) if merges else "")
